@@ -23,7 +23,7 @@ TRANSLATORS = [tr_scenarios.run]
 OBLIGATIONS = ["Allfed.C13." + n for n in [
     "C13_exactly_once", "C13_exactly_once_sound", "C13_exactly_once_complete", "C13_flags_of_run", "C13_twice_rejected", "C13_never_flag_error_when_once",
     "C13_table_wellformed", "C13_families_partition", "C13_flags_agree", "C13_dispatch_covers_every_family", "C13_every_family_required_no_default",
-    "C13_missing_rejected", "C13_unknown_rejected", "C13_unknown_rejected_before_any_setter", "C13_two_phase", "C13_patch_rules_ok", "C13_patch_frame",
+    "C13_accepted_all_set", "C13_missing_rejected", "C13_unknown_rejected", "C13_unknown_rejected_before_any_setter", "C13_two_phase", "C13_patch_rules_ok", "C13_patch_frame",
     "C13_patches_only_shutoff", "C13_means_what_it_says", "C13_spec_covers_table", "C13_dispatch_means_what_it_says", "C13_overrides_spec",
     "C13_frame", "C13_frame_absent", "C13_override_sets_named_key", "C13_head_override_writes",
     "C13_head_override_name", "C13_head_override_name_general", "C13_head_keys_only_from_override",
@@ -632,6 +632,34 @@ def part_dispatch(ctx, E):
 
     lines = ["scen.dispatch %s %s" % (enc_cd(row, E.cols), enc_dict(o)) for o, row, _, _ in cases]
     outs = ctx.lean(lines)
+    # the documented dispatch (hand-written table option -> value -> setter) as an op sequence over the specification rows
+    rd = Reader(ctx.lean(["scen.specdispatch"])[0])
+    spec_disp = []
+    for _ in range(rd.nat()):
+        opt = rd.str()
+        vals = {}
+        for _ in range(rd.nat()):
+            v = rd.str()
+            vals[v] = rd.strs()
+        spec_disp.append((opt, vals))
+    doc_lines, doc_idx = [], []
+    for k, (opts, row, tag, extra) in enumerate(cases):
+        if tag not in ("valid", "documented") or (row is not None and row["iso3"] in ("SLV", "ALB", "ECU")):
+            continue
+        ops, ok = [], True
+        for opt, vals in spec_disp:
+            names = vals.get(opts.get(opt))
+            if names is None or "<exit>" in names:
+                ok = False
+                break
+            ops += [("c", nm) for nm in names]
+            if opt == "scale":
+                ops += [("w", "COUNTRY_CODE", "WOR" if row is None else row["iso3"]), ("w", "NMONTHS", opts["NMONTHS"])]
+        if ok:
+            doc_lines.append(seq_line(E, ops, row).replace("scen.seq ", "scen.seqspec ", 1))
+            doc_idx.append(k)
+    doc_outs = dict(zip(doc_idx, ctx.lean(doc_lines))) if doc_lines else {}
+    idx_of = {id(c[0]): k for k, c in enumerate(cases)}
     for (opts, row, tag, extra), out in zip(cases, outs):
         case = {"options": opts, "country": None if row is None else row["iso3"], "kind": tag}
         real, same = real_dispatch(ctx, opts, row)
@@ -668,6 +696,17 @@ def part_dispatch(ctx, E):
                     ctx.disagree("dispatch-constants", case, [(p, a) for p, a, _ in bad[:4]], [(p, b) for p, _, b in bad[:4]])
             ctx.count("dispatch:accepted")
         # property oracles on the real code
+        if real[0] == "ok" and idx_of[id(opts)] in doc_outs:
+            dm = read_result(Reader(doc_outs[idx_of[id(opts)]]))
+            if dm[0] != "ok":
+                ctx.violation("dispatch-deviates-from-documentation", "these options are accepted by the code but the documented dispatch "
+                              "(option -> setter table over the specification rows) rejects them: %s" % doc_outs[idx_of[id(opts)]][:100], case)
+            else:
+                bad = diff_store(ctx, dm[4], flatten(real[2], real[3]))
+                if bad:
+                    ctx.violation("dispatch-deviates-from-documentation", "with these options the code leaves %s = %r, the documentation says %r"
+                                  % bad[0], dict(case, key=bad[0][0]))
+                ctx.count("documented-dispatch-executed")
         if tag == "unknown" and real[0] == "ok":
             ctx.violation("unknown-value-accepted", "option %s=%r is not one of the dispatcher's values but was accepted" % (extra, opts[extra]), case)
         if tag == "missing" and real[0] == "ok":
